@@ -79,17 +79,7 @@ func c05Case(c *mon.Ctx, i int, record bool) {
 		// directed families, sampled from the end so the SAN-sibling family is always complete
 		// the small families at the end of the enumeration are run completely; what is left of this part's budget
 		// (a sixth of the enumeration at quick, all of it at thorough) is spread evenly over the two big families
-		dC, nTail, j := directedCount(c), directedSmallTail(c), i-nU
-		budget := dC / c.Pick(6, 1)
-		k := dC - 1 - j
-		if j >= nTail {
-			rest, left := dC-nTail, budget-nTail
-			if left <= 0 {
-				return
-			}
-			stride := (rest + left - 1) / left
-			k = rest - 1 - (j-nTail)*stride - int(uint64(c.Seed)%uint64(stride))
-		}
+		k := directedPick(c, i-nU)
 		if k < 0 {
 			return
 		}
